@@ -198,6 +198,7 @@ func (state *Runtime) resolve(name string) (reflect.Value, error) {
 	}
 
 	// try globals
+	verifYield("resolve:globals")
 	state.set.gmx.RLock()
 	v, ok := state.set.globals[name]
 	state.set.gmx.RUnlock()
@@ -233,6 +234,7 @@ func (st *Runtime) recover(err *error) {
 	// reset state scope and context just to be safe (they might not be cleared properly if there was a panic while using the state)
 	st.scope = &scope{}
 	st.context = reflect.Value{}
+	verifReleaseRuntime(st)
 	pool_State.Put(st)
 	if recovered := recover(); recovered != nil {
 		var ok bool
@@ -1622,10 +1624,12 @@ func resolveIndex(v, index reflect.Value, indexAsStr string) (reflect.Value, err
 		key := indexAsStr
 
 		// Fast path: use the struct cache to avoid allocations.
+		verifYield("fieldcache:read")
 		cachedStructsMutex.RLock()
 		cache, ok := cachedStructsFieldIndex[typ]
 		cachedStructsMutex.RUnlock()
 		if !ok {
+			verifYield("fieldcache:fill")
 			cachedStructsMutex.Lock()
 			if cache, ok = cachedStructsFieldIndex[typ]; !ok {
 				cache = make(map[string][]int)
